@@ -583,7 +583,7 @@ func c01R3(c *Ctx) {
 			st := n.Underlying().(*types.Struct)
 			for i := 0; i < st.NumFields(); i++ {
 				f := st.Field(i)
-				if f.Name() != "ReceivedTarget" && f.Name() != "ExpectedTarget" {
+				if cn(f) != "ReceivedTarget" && cn(f) != "ExpectedTarget" {
 					continue
 				}
 				for _, s := range p.FieldStores(f) {
@@ -591,7 +591,7 @@ func c01R3(c *Ctx) {
 						continue
 					}
 					vo := p.Origin(s.Store.Val)
-					okF := f.Name() == "ReceivedTarget" && isSeq(vo) || f.Name() == "ExpectedTarget" && isExp(vo)
+					okF := cn(f) == "ReceivedTarget" && isSeq(vo) || cn(f) == "ExpectedTarget" && isExp(vo)
 					c.Check(okF, name, p.InstrPos(s.Store), tn+"-"+f.Name(), f.Name()+" bound to the right operand", tn+"."+f.Name()+" is set from "+vo.String())
 				}
 			}
